@@ -667,6 +667,47 @@ func readJSONProjection(repo string, pr projection) ([]string, error) {
 	return out, nil
 }
 
+// readJSONProjectionStrict reads the reference projection: keys are the schema's exact names, and an
+// entry that lacks the id key or the deprecation key is an error, not a zero value.
+func readJSONProjectionStrict(repo string, pr projection) ([]string, error) {
+	b, err := os.ReadFile(filepath.Join(repo, "cmd", pr.JSONFile))
+	if err != nil {
+		return nil, err
+	}
+	var doc map[string]json.RawMessage
+	if err := json.Unmarshal(b, &doc); err != nil {
+		return nil, fmt.Errorf("%s: %v", pr.JSONFile, err)
+	}
+	raw, ok := doc[pr.ListField]
+	if !ok {
+		return nil, fmt.Errorf("%s has no key %q", pr.JSONFile, pr.ListField)
+	}
+	var list []map[string]json.RawMessage
+	if err := json.Unmarshal(raw, &list); err != nil {
+		return nil, fmt.Errorf("%s.%s: %v", pr.JSONFile, pr.ListField, err)
+	}
+	var out []string
+	for i, e := range list {
+		var dep bool
+		var id string
+		rd, ok1 := e[pr.FilterField]
+		ri, ok2 := e[pr.ElemField]
+		if !ok1 || !ok2 {
+			return nil, fmt.Errorf("%s.%s[%d] lacks %q or %q", pr.JSONFile, pr.ListField, i, pr.FilterField, pr.ElemField)
+		}
+		if err := json.Unmarshal(rd, &dep); err != nil {
+			return nil, fmt.Errorf("%s.%s[%d].%s: %v", pr.JSONFile, pr.ListField, i, pr.FilterField, err)
+		}
+		if err := json.Unmarshal(ri, &id); err != nil {
+			return nil, fmt.Errorf("%s.%s[%d].%s: %v", pr.JSONFile, pr.ListField, i, pr.ElemField, err)
+		}
+		if dep == pr.FilterWant {
+			out = append(out, id)
+		}
+	}
+	return out, nil
+}
+
 // lookupFold mirrors encoding/json's field matching: exact key first, then case-insensitive.
 func lookupFold(m map[string]json.RawMessage, key string) (json.RawMessage, bool) {
 	if v, ok := m[key]; ok {
@@ -737,7 +778,8 @@ func rulesC12(p *Prog, r *Report) {
 		name string
 		got  []string
 	}
-	byFile := map[string][]string{}
+	projByFile := map[string]projection{}
+	projPos := map[string]token.Pos{}
 	for _, a := range arts {
 		key := "write:" + a.Path
 		r.Funcs[p.shortKey(a.Fn)] = true
@@ -763,11 +805,24 @@ func rulesC12(p *Prog, r *Report) {
 			r.Bad("L2", key, fmt.Sprintf("%s:%d", rel, line), fmt.Sprintf("re-running the generator would not reproduce %s: first difference at byte %d (line %d): generator %q, committed %q", rel, off, line, excerpt(gen, off), excerpt(have, off)))
 		}
 		rel, _ := filepath.Rel(p.RepoDir, target)
-		for _, ids := range lists {
-			byFile[rel] = ids
+		_ = lists
+		for _, part := range a.Parts {
+			if part.Rep != nil {
+				projByFile[rel] = part.Rep.Proj
+				projPos[rel] = a.Pos
+			}
 		}
 	}
-	// L3: which generated file defines which getter is read from the getter's source position
+	// L3: the reference projections are fixed by the SPDX list-data schema the property names, NOT by
+	// the generator: licenses.json {licenses[].licenseId, isDeprecatedLicenseId}, exceptions.json
+	// {exceptions[].licenseExceptionId, isDeprecatedLicenseId}. L3g: the generator's own projection
+	// (extracted in L1) must be that projection, so that a refresh of the data keeps producing it.
+	r.Rule("L3g", "exact", 3, "the generator's projection for each table is the SPDX schema's: same JSON file, list, id key, deprecation key (keys compared as encoding/json matches them, case-insensitively) and polarity")
+	ref := map[string]projection{
+		"GetLicenses":   {JSONFile: "licenses.json", ListField: "licenses", ElemField: "licenseId", FilterField: "isDeprecatedLicenseId", FilterWant: false},
+		"GetDeprecated": {JSONFile: "licenses.json", ListField: "licenses", ElemField: "licenseId", FilterField: "isDeprecatedLicenseId", FilterWant: true},
+		"GetExceptions": {JSONFile: "exceptions.json", ListField: "exceptions", ElemField: "licenseExceptionId", FilterField: "isDeprecatedLicenseId", FilterWant: false},
+	}
 	for _, x := range []struct {
 		name string
 		ids  []string
@@ -775,15 +830,26 @@ func rulesC12(p *Prog, r *Report) {
 	}{{"GetLicenses", t.Active, "GetLicenses"}, {"GetDeprecated", t.Deprecated, "GetDeprecated"}, {"GetExceptions", t.Exceptions, "GetExceptions"}} {
 		fn := p.Func(p.LicPkg, x.fn)
 		file := strings.Split(p.pos(fn.Pos()), ":")[0]
-		proj, ok := byFile[file]
+		want, err := readJSONProjectionStrict(p.RepoDir, ref[x.name])
+		if err != nil {
+			r.Unknown("L3", x.name, p.pos(fn.Pos()), "kind=undecided: cannot read the SPDX data: "+err.Error())
+		} else if d := diffLists(want, x.ids); d != "" {
+			r.Bad("L3", x.name, p.pos(fn.Pos()), fmt.Sprintf("compiled table %s differs from the SPDX data (%s): %s", x.name, ref[x.name], d))
+		} else {
+			r.OK("L3", x.name, p.pos(fn.Pos()), "equal", fmt.Sprintf("%d ids = %s", len(x.ids), ref[x.name]), true)
+		}
+		gp, ok := projByFile[file]
 		if !ok {
-			r.Bad("L3", x.name, p.pos(fn.Pos()), fmt.Sprintf("%s is defined in %s, which no generator output covers", x.name, file))
+			r.Bad("L3g", x.name, p.pos(fn.Pos()), fmt.Sprintf("%s is defined in %s, which no generator output covers", x.name, file))
 			continue
 		}
-		if d := diffLists(proj, x.ids); d != "" {
-			r.Bad("L3", x.name, p.pos(fn.Pos()), fmt.Sprintf("compiled table %s differs from the SPDX JSON projection: %s", x.name, d))
+		rp := ref[x.name]
+		same := gp.JSONFile == rp.JSONFile && strings.EqualFold(gp.ListField, rp.ListField) && strings.EqualFold(gp.ElemField, rp.ElemField) &&
+			strings.EqualFold(gp.FilterField, rp.FilterField) && gp.FilterWant == rp.FilterWant
+		if same {
+			r.OK("L3g", x.name, p.pos(projPos[file]), "generator projection = schema projection", gp.String(), true)
 		} else {
-			r.OK("L3", x.name, p.pos(fn.Pos()), "equal", fmt.Sprintf("%d ids", len(x.ids)), true)
+			r.Bad("L3g", x.name, p.pos(projPos[file]), fmt.Sprintf("the generator fills %s from «%s», the SPDX schema says «%s»: a key the data does not have decodes to the zero value silently", x.name, gp, rp))
 		}
 	}
 	// every generated file must define one of the getters (no orphan output)
@@ -792,6 +858,7 @@ func rulesC12(p *Prog, r *Report) {
 	r.Extra["templates"] = tmplDescr
 
 	ruleFoldUnique(p, r, t, "L4")
+	ruleK1(p, r) // L5b evaluates the lookups as exact membership tests; K1 is what makes them so
 	kw, kerr := scannerKeywords(p)
 	if kerr != nil {
 		r.Rule("L5", "necessary", 500, "every listed id is readable by the scanner in its role")
